@@ -243,18 +243,17 @@ def main(prop, tier, runs=None, k=None, write=True):
     tot, sets, lists = merge(results)
     digest = hashlib.sha256("".join(lists["__digests__"]).encode()).hexdigest()[:32]
 
-    # known findings: replay stored witnesses
+    # known findings: replay stored witnesses; a finding is reported while its witness still fails or while
+    # exploration still attributes divergences to it through its signature predicate
     known_lines = []
     for f in evidence.open_findings(prop):
         wpath = os.path.join(evidence.VERIF, f["witness"])
         with open(wpath) as fh:
             wcase = json.load(fh)
         d, ea, eb = evaluate(wcase)
-        if d is not None:
+        attributed = tot.get("stale_alias_divergences", 0) if f["id"] == "R01" else 0
+        if d is not None or attributed:
             known_lines.append(f"KNOWN-FINDING: property={prop} {f['id']} {f['what']}")
-    if prop == "C10" and tot.get("stale_alias_divergences", 0) and not known_lines:
-        # exploration attributes to R1 only what the register lists
-        raise pool.HarnessFailure("stale-alias divergences attributed but no open finding registered")
 
     # minimise a few raw violations per class
     violations = []
